@@ -84,6 +84,8 @@ pub enum Error {
     UnknownInfoType(u16),
     #[error("unexpected bytes")]
     UnexpectedBytes,
+    #[error("invalid padding: expected zero, got {0:#04x}")]
+    InvalidPadding(u8),
 }
 
 impl Error {
